@@ -276,9 +276,15 @@ pub fn c07(run: &mut Run) -> Stats {
             .par_iter()
             .fold(Stats::default, |mut st, p| {
                 let mut cuts: Vec<Vec<u32>> = Vec::new();
-                for k in 0..p.len() {
+                for k in 0..=p.len() {
                     cuts.push(p[..k].to_vec());
                     cuts.push(p[k..].to_vec());
+                    // a construct cut off right after its opening
+                    for tail in ["\\", "\\u", "\\x", "\\c", "\\k<", "\\p{", "\\q{", "(?", "(?<", "[", "[^", "{", "{1,", "\\u{", "\\ud83d\\u"] {
+                        let mut c = p[..k].to_vec();
+                        c.extend(tail.chars().map(|ch| ch as u32));
+                        cuts.push(c);
+                    }
                 }
                 for pat in cuts {
                     for fs in FLAGSETS {
@@ -369,7 +375,7 @@ pub fn c07(run: &mut Run) -> Stats {
         st.sample(|| t);
     }
     run.rule = format!(
-        "(a) every string over the {}-token alphabet {:?} of length <= {} and every raw code point string over {{0, (, \\, U+D800, U+DFFF, U+10FFFF, a, {{, [, u, }}}} of length <= {} x flag sets {:?}: from_unicode must return Ok or Err (catch_unwind; a watchdog reports any compile > 10 s); (c) every prefix and suffix of every C08 seed pattern x the same flag sets; (b) {} size-parameterised shapes x sizes {:?} x {{\"\",u,v}} x {{main thread, spawned 2 MiB thread}}, each in a child process (8 MiB stack, 6 GiB address space, {} s wall): exit status 0 with Ok/Err; non-trivial = the input compiles",
+        "(a) every string over the {}-token alphabet {:?} of length <= {} and every raw code point string over {{0, (, \\, U+D800, U+DFFF, U+10FFFF, a, {{, [, u, }}}} of length <= {} x flag sets {:?}: from_unicode must return Ok or Err (catch_unwind; a watchdog reports any compile > 10 s); (c) every prefix and suffix of every C08 seed pattern, and every prefix followed by each of 15 cut-off construct openings (\\ \\u \\x \\c \\k< \\p{{ \\q{{ (? (?< [ [^ {{ {{1, \\u{{ \\ud83d\\u), x the same flag sets; (b) {} size-parameterised shapes x sizes {:?} x {{\"\",u,v}} x {{main thread, spawned 2 MiB thread}}, each in a child process (8 MiB stack, 6 GiB address space, {} s wall): exit status 0 with Ok/Err; non-trivial = the input compiles",
         toks.len(),
         TOKENS,
         n_tok,
